@@ -160,7 +160,11 @@ class _DocProxy:
         return f"_DocProxy({repr(self.doc)})"
 
     def __getitem__(self, key):
-        return self.doc[key]
+        value = self.doc[key]
+        if self.dry_run and isinstance(value, Mapping):
+            # Nested mappings must not be modified in a dry run either.
+            return _DocProxy(value, dry_run=True)
+        return value
 
     def __setitem__(self, key, value):
         logger.more(f"Set '{key}'='{value}'.")
